@@ -99,8 +99,8 @@ MutateOK(p, v, k, h) ==
   /\ v.idx = p.idx /\ v.steps = p.steps /\ v.scores = p.scores /\ v.fitness = p.fitness
   /\ Coherent(v)                                                  \* optimizers follow
   /\ ShadowArch(v)                                                \* targets follow: architecture always,
-  /\ \A n \in Nets : Shape.shadow[n] # 0 =>                       \* weights right after the mutation
-        (v.w[n] = v.w[Shape.shadow[n]] \/ (k = "none" /\ v.w[n] = p.w[n]))
+  /\ \A n \in Nets : Shape.shadow[n] # 0 =>                       \* weights right after the mutation -- of EVERY member of the
+        v.w[n] = v.w[Shape.shadow[n]]                               \* mutated population, also one that drew "no mutation"
   /\ CASE k = "none"  -> v.hp = p.hp /\ v.arch = p.arch /\ \A n \in Evals : v.w[n] = p.w[n]
        \* every network trained alongside the policy received the change -- or none did (a mutation stopped
        \* by a bound, or an algorithm that does not allow the kind, leaves every architecture as it was)
